@@ -177,8 +177,8 @@ class Run:
         for op in WORKFLOW[WORKFLOW.index(handler):]:
             r = await self.op(op)
             out = r["out"]
-            if out == "raised" and r.get("err") == "ValueError":
-                out = "already"          # a refusal; Layer A accepts it only if the step's effect is already in place (AlreadyDone)
+            if out == "raised" and "ValueError" in r.get("mro", [r.get("err")]):
+                out = "already"          # a refusal (ValueError or a subclass); Layer A accepts it only if the step's effect is already in place (AlreadyDone)
             elif out != "ok":
                 out = out + ":" + r.get("err", "")
             self.ev.append({"e": "rstep", "op": op, "out": out, "msg": r.get("msg", "")})
@@ -210,7 +210,11 @@ class Run:
             await self.w.stop_server()
             p = subprocess.Popen([sys.executable, "-B", child, REPO, os.environ["HOME"], "server", str(self.w.sdir), str(j), when],
                                  env=env, stdout=subprocess.PIPE, stderr=subprocess.STDOUT, text=True)
-            line = await asyncio.get_running_loop().run_in_executor(None, p.stdout.readline)
+            line = ""
+            for _ in range(200):        # warnings printed at import time may come first
+                line = await asyncio.get_running_loop().run_in_executor(None, p.stdout.readline)
+                if line.startswith("PORT") or not line:
+                    break
             if not line.startswith("PORT"):
                 p.kill()
                 raise MachineryError("server child did not start: %r" % line)
